@@ -83,6 +83,36 @@ def pf_variants(sc):
         out.append(dict(variant="%s/base%d/order%d/%s/%s" % (idx_kind, base, oseed, method, lib), converged=conv,
                         same=bool(conv and len(sol) == len(ref) and np.max(np.abs(sol - ref)) <= 1e-7),
                         resid_ok=bool(conv and resid <= ss.PFlow.config.tol), dmax=float(np.max(np.abs(sol - ref))) if conv and len(sol) == len(ref) else -1.0))
+    # the same network after a history of connection changes: the last bus is cut off (all its branches out of service),
+    # the power flow is run, the branches are put back and the power flow is run again - the solution of the restored
+    # network must be the reference solution and balance at EVERY bus (computed without the library's island list)
+    if ref is not None and sc.get("history", True):
+        spec = network_spec(sc["seed"], "int", 1, 0)
+        ss, ids, ok = netbuild.build(spec)
+        last = ss.Bus.idx.v[-1]
+        cut = [ss.Line.idx.v[k] for k in range(ss.Line.n)
+               if ss.Line.u.v[k] == 1 and (ss.Line.bus1.v[k] == last or ss.Line.bus2.v[k] == last)]
+        for i in cut:
+            ss.Line.alter("u", i, 0)
+        try:
+            _solve(ss, "NR", "klu")
+        except Exception:
+            pass
+        for i in cut:
+            ss.Line.alter("u", i, 1)
+        try:
+            conv = _solve(ss, "NR", "klu")
+        except Exception:
+            conv = False
+        sol = np.hstack([np.array(ss.Bus.a.v), np.array(ss.Bus.v.v)])
+        resid = float("nan")
+        if conv:
+            ss.PFlow.fg_update()
+            resid = float(np.max(np.abs(ss.dae.g)))
+        out.append(dict(variant="history/cut-last-bus(%d branches)/reconnect" % len(cut), converged=conv,
+                        same=bool(conv and len(sol) == len(ref) and np.max(np.abs(sol - ref)) <= 1e-7),
+                        resid_ok=bool(conv and resid <= ss.PFlow.config.tol),
+                        dmax=float(np.max(np.abs(sol - ref))) if conv and len(sol) == len(ref) else -1.0))
     return dict(sid=sc["sid"], records=out)
 
 
